@@ -169,6 +169,10 @@ def run_check(prop, tier):
     results, wall, timed_out = runner.run_batch(
         prop, wl_name, nruns, seed, params=params, wall_cap=wall_cap,
         start_index=int(os.environ.get("XSIM_START") or 0))
+    if wl_name == "c16":
+        from .workloads.cluster import _sweep_dead_semaphores
+
+        _sweep_dead_semaphores()
     herr = [r for r in results if r["harness_error"]]
     if herr:
         say("HARNESS-ERROR in run {} (seed {}):\n{}".format(
@@ -229,9 +233,43 @@ def run_check(prop, tier):
         cp = subprocess.run([os.path.join(VERIF, "check"), "--replay", path],
                             capture_output=True, text=True, timeout=300)
         if "REPRODUCED" not in cp.stdout:
-            say("HARNESS-ERROR: replay {} did not reproduce in a fresh interpreter:\n{}\n{}".format(
-                path, cp.stdout[-2000:], cp.stderr[-2000:]))
-            return 2
+            # Something of this process (state left by earlier runs in a module of the
+            # code under test or of a dependency) took part in the failure.  The ground
+            # truth is "one tape, one fresh interpreter": derive the replay again with
+            # every execution in its own interpreter; report only what that reproduces.
+            say("note: {} did not reproduce in a fresh interpreter - re-deriving it with one "
+                "fresh interpreter per execution".format(os.path.basename(path)))
+            os.remove(path)
+            got = None
+            for prm in (rparams, dict(params, run_index=r0["i"])):
+                o = fresh_execute(prop, wl_name, r0["tape"], prm)
+                if o is not None and not o["harness_error"] and o["violation"] is not None:
+                    got = (o, prm)
+                    break
+            if got is None:
+                say("HARNESS-ERROR: violation {} of run {} does not occur when its tape is executed in a "
+                    "fresh interpreter:\n{}\n{}".format(sig, r0["i"], cp.stdout[-2000:], cp.stderr[-2000:]))
+                return 2
+            o, prm = got
+            sig = o["violation"]["sig"]
+            best, final, nex = shrink.shrink(
+                lambda tp, prm=prm: fresh_execute(prop, wl_name, tp, prm) or {
+                    "harness_error": "no outcome", "violation": None},
+                r0["tape"], sig, max_execs=int(os.environ.get("XSIM_FRESH_SHRINK_EXECS", 24)),
+                max_wall=240)
+            rp.update({"params": prm, "tape": final["tape"], "shrink_executions": nex,
+                       "expected_violation": final["violation"], "event_log_digest": final["digest"],
+                       "trace": final.get("trace"), "event_tail": final.get("event_tail"),
+                       "derived_in_fresh_interpreters": True})
+            path = replay_file_path(prop, sig, final["tape"])
+            with open(path, "w") as f:
+                json.dump(rp, f, indent=1, default=str)
+            cp = subprocess.run([os.path.join(VERIF, "check"), "--replay", path],
+                                capture_output=True, text=True, timeout=300)
+            if "REPRODUCED" not in cp.stdout:
+                say("HARNESS-ERROR: replay {} did not reproduce in a fresh interpreter:\n{}\n{}".format(
+                    path, cp.stdout[-2000:], cp.stderr[-2000:]))
+                return 2
         k = known_sigs.get((prop, sig))
         if k is not None:
             say("KNOWN-FINDING: property={} {} [{} occurrences, replay={}]".format(
@@ -253,6 +291,41 @@ def run_check(prop, tier):
         len(results), wall, len(results) / max(wall, 1e-9) * 3600, len(viol),
         new_violations, ev))
     return 1 if new_violations else 0
+
+
+def fresh_execute(prop, wl_name, tape, params):
+    """Execute one tape in a fresh interpreter (./check --exec); -> outcome dict or None."""
+    import tempfile
+
+    fd, name = tempfile.mkstemp(prefix="xsim-exec-", suffix=".json",
+                                dir=os.environ.get("XSIM_TMP", "/dev/shm"))
+    try:
+        with os.fdopen(fd, "w") as f:
+            json.dump({"property": prop, "workload": wl_name, "tape": list(tape), "params": params}, f)
+        cp = subprocess.run([os.path.join(VERIF, "check"), "--exec", name],
+                            capture_output=True, text=True, timeout=600)
+        for line in cp.stdout.splitlines():
+            if line.startswith("XSIM-OUTCOME "):
+                return json.loads(line[len("XSIM-OUTCOME "):])
+        return None
+    finally:
+        try:
+            os.remove(name)
+        except OSError:
+            pass
+
+
+def run_exec(path):
+    from . import registry, runner
+
+    with open(path) as f:
+        rq = json.load(f)
+    o = runner.execute(rq["property"], registry.WORKLOADS[rq["workload"]], replay=rq["tape"],
+                       params=rq.get("params"))
+    keep = {k: o.get(k) for k in ("violation", "harness_error", "digest", "tape", "marks", "trace",
+                                  "event_tail")}
+    print("XSIM-OUTCOME " + json.dumps(keep, default=str))
+    return 0
 
 
 def run_replay(path):
@@ -305,6 +378,8 @@ def main(argv):
         return setup()
     if argv[0] == "--replay":
         return run_replay(argv[1])
+    if argv[0] == "--exec":
+        return run_exec(argv[1])
     if argv[0] == "--selftest":
         from . import selftest
 
